@@ -45,7 +45,8 @@ class BitStore:
 
     def __init__(self, initializer: Union[int, bitarray.bitarray, str, None] = None,
                  immutable: bool = False) -> None:
-        self._bitarray = bitarray.bitarray(initializer)
+        # Always store big-endian, so that tobytes, hex etc. don't depend on the endianness of a source bitarray.
+        self._bitarray = bitarray.bitarray(initializer, endian='big')
         self.immutable = immutable
         self.modified_length = None
 
